@@ -15,6 +15,7 @@ NOT_PROVED = ["sign of products v[i-1]*v[i] that underflow in binary64 (not gene
               "C12.f: 'switched peaks with tol>0 are a subsequence of the tol=0 result' is false of code and model (known finding F12-2); "
               "proved instead: sublist of the peak list"]
 EXHAUSTIVE = True
+PROP_MODULES = ['C12', 'C12Discharged']
 
 
 def spec_zc(v, keep):
